@@ -27,7 +27,7 @@ func (e *Engine) ghostArr(st *State, name string, s Sort) *Term {
 	return e.tb.Const("G0!"+name, s)
 }
 
-var ghostSorts = map[string]Sort{"setbyteslen": SInt, "closed": SArrB, "sends": SArrI, "held": SArrB, "kvput": SArrB, "kvdel": SArrB, "kvapplied": SArrI, "kvbatch": SArrB, "marks": SArrB, "ctxdone": SArrB, "ctxbounded": SArrB, "wpos": SArrI, "wbytes": SArr2I, "rfail": SArrB, "unmarshalled": SArrB, "recvcount": SInt, "recvnonnil": SInt}
+var ghostSorts = map[string]Sort{"setbyteslen": SInt, "closed": SArrB, "sends": SArrI, "held": SArrB, "kvput": SArrB, "kvdel": SArrB, "kvapplied": SArrI, "kvbatch": SArrB, "marks": SArrB, "ctxdone": SArrB, "ctxbounded": SArrB, "wpos": SArrI, "wbytes": SArr2I, "rfail": SArrB, "unmarshalled": SArrB, "recvcount": SInt, "recvnonnil": SInt, "bufsrc": SArrI}
 
 func (e *Engine) setGhost(st *State, name string, t *Term) {
 	st.Ghost[name] = t
